@@ -3,7 +3,7 @@
    internals are outside any executable model (harness/props/c18.py explores them with a
    deterministic scheduler and free-running threads, as supporting evidence). *)
 From Coq Require Import List ZArith Bool Arith Permutation.
-From YV Require Import Common.Corr Model.Eval Model.Interleave Lemmas.EvalFrame Lemmas.InterleaveFacts Lemmas.EvalThreads.
+From YV Require Import Common.Corr Model.Eval Model.Interleave Lemmas.EvalFrame Lemmas.InterleaveFacts Lemmas.EvalThreads Lemmas.EvalWf Lemmas.EvalShift.
 Import ListNotations.
 
 (* (i) footprint: an evaluation writes only to contexts it allocated itself - every context that
@@ -29,6 +29,18 @@ Proof.
   intros fuel host js js' Hp. rewrite !run_jobs_spec. cbn [fst snd]. split; [|reflexivity].
   now apply Permutation_map.
 Qed.
+
+(* (ii') the same WITHOUT discarding what an evaluation leaves behind: contexts allocated by other evaluations (any
+   block g, e.g. the contexts of every evaluation that ran or is running on the same shared chain) are invisible to an
+   evaluation started in a fresh child of the chain - same log, same error, same value up to the names of its own
+   contexts.  (Evaluation is a function of what is reachable from its context.) *)
+Theorem C18_unreachable_contexts_irrelevant :
+  forall fuel base g c data e,
+    hok base -> c < length base -> vok (length base) data ->
+    let j := {| j_parent := c; j_data := data; j_expr := e |} in
+    snd (run_job fuel (base ++ g) j)
+    = (fst (snd (run_job fuel base j)), shres (shv base g) (snd (snd (run_job fuel base j)))).
+Proof. exact garbage_irrelevant. Qed.
 
 (* (iii) interleaving at step granularity: threads whose steps read the common read-only region and
    their own private region, and write only their own private region, under EVERY schedule (any
